@@ -440,6 +440,10 @@ def d3_validators(ctx, idx):
                             expected="expression.replace(' ', '')")
             else:
                 r.ok(C + ': test [student side]', "spaces removed from the student's expression", where)
+                if nf.match("%s.replace(' ', '')" % ev, hay) is not None:
+                    r.note("by-catch: only U+0020 is removed before the forbidden-string test, while the formula parser also skips TAB and "
+                           "newline: 'sin(2*<TAB>theta)' is not matched by forbidden string '*theta' yet parses like 'sin(2*theta)' "
+                           "(the property speaks of spaces only; reported for triage)")
             if kn == 'raw':
                 r.violation(C + ': test [forbidden side]', "spaces are not removed from the forbidden string: an entry such as '+ x' never "
                             "matches the space-free expression", where, expected="forbidden.replace(' ', '')")
@@ -613,7 +617,7 @@ def d3_permitted(ctx, idx):
             else:
                 extra, missing = sorted(got - want, key=str), sorted(want - got, key=str)
                 why = []
-                if 'b' in extra:
+                if 'b' in extra and 'b' in bl:
                     why.append('the black-listed function stays permitted')
                 if desc.startswith('whitelist') and set(extra) & {'d2', 'b', 'd1'}:
                     why.append('default functions outside the whitelist stay permitted')
@@ -1077,3 +1081,50 @@ BENIGN = [
     Benign('check-scope-keywords', EXPR, "        self.check_scope(variables, functions, suffixes)\n\n        # metadata_dict",
            "        self.check_scope(functions=functions, variables=variables, suffixes=suffixes)\n\n        # metadata_dict"),
 ]
+
+
+# ------------------------------------------------------------------------ thorough tier
+def thorough(ctx):
+    """Independent re-implementation of the D4 ordering query by bounded path enumeration."""
+    idx = ctx.index
+    r = ctx.rule('D4.SCRUB.paths', 'cross-check: every enumerated path author -> student inside one iteration contains the deletion',
+                 floor=3)
+    with r:
+        for q in (FGC, IGC, SGC):
+            fi = idx.func(q + '.gen_evaluations')
+            name = q.split('.')[-1] + '.gen_evaluations'
+            author, student = _gen_eval_roots(fi)
+            a_calls, s_calls = eval_sites(fi, author, student)
+            if len(a_calls) != 1 or len(s_calls) != 1:
+                raise AnalysisError('%s: expected one author and one student evaluation' % name)
+            loop = fl.enclosing_loop(s_calls[0], fi.node)
+            if loop is None:
+                raise AnalysisError('%s: no sampling loop' % name)
+            cfg = cfg_of(fi.node)
+            a_nodes, s_nodes = fl.nodes_for(cfg, a_calls[0]), fl.nodes_for(cfg, s_calls[0])
+            head = fl.loop_head(cfg, loop)
+            d_nodes = set()
+            for n in ast.walk(loop):
+                if isinstance(n, ast.Delete):
+                    lp = fl.enclosing_loop(n, fi.node)
+                    if lp is not None and lp is not loop:
+                        d_nodes |= set(cfg.nodes_of(lp))
+            total = bad = 0
+            truncated = False
+            for a in a_nodes:
+                paths, trunc = cfg.enumerate_paths(a, limit=10000, exits=set(s_nodes) | {head, cfg.exit_raise, cfg.exit_return})
+                truncated = truncated or trunc
+                for p in paths:
+                    if p[-1] in s_nodes:
+                        total += 1
+                        if not any(n in d_nodes for n in p):
+                            bad += 1
+            if truncated:
+                r.undecided(name, 'path enumeration hit its bound', fi.loc)
+            elif total == 0:
+                r.undecided(name, 'no path from the author\'s to the student\'s evaluation was enumerated', fi.loc)
+            elif bad:
+                r.violation(name, '%d of %d enumerated paths from the author\'s to the student\'s evaluation skip the deletion of the '
+                            'black-listed names' % (bad, total), fi.loc)
+            else:
+                r.ok(name, '%d enumerated path(s), all pass the deletion' % total, fi.loc)
